@@ -18,6 +18,26 @@ def finish(run, env, pid, rule, extra=None, known_filter=None):
     run.assumptions += ["block writes are atomic and ordered (device model)", "the tie between coq/fs/Fs*.v and the crate is differential testing (counts in coverage)"]
     return "other"
 
+def do_replay(run, env, replay):
+    sc = env.load_replay(replay)
+    env.run_all(writes=True)
+    d = env.first_diff(sc["model"], sc["impl"])
+    if d:
+        print("model/implementation differ at trace line %d:\n  model: %s\n  impl : %s" % d)
+        run.violation("replayed script: model and implementation differ at trace line %d" % d[0], env.replay_text(sc, "model: %s\nimpl : %s" % (d[1], d[2])), no_input=True)
+    else:
+        print("replayed script: model and implementation agree on all %d trace lines" % len(sc["impl"]))
+    tr = O.Trace(sc)
+    probs, _ = O.run_spec(tr, sc["meta"]["dev0"], sc["meta"]["slot"])
+    probs += per_op_image_checks(run, env, sc, {"fsck", "mirror", "c04"})
+    for p_ in probs[:5]:
+        print("oracle: " + p_)
+    if probs:
+        run.violation("replayed script: " + probs[0][:200], env.replay_text(sc, "\n".join(probs[:8])))
+    env.fill_coverage("replay of one saved script")
+    run.coverage["explanation"] = "replay"
+    return "other"
+
 def tier_n(run, quick, thorough):
     return thorough if run.tier == "thorough" else quick
 
@@ -47,6 +67,8 @@ def check_C01(run, replay=None):
     env = F.Env(run, "C01.v")
     if not env.ok:
         return "other"
+    if replay:
+        return do_replay(run, env, replay)
     rng = V.SplitMix(run.seed)
     n = tier_n(run, 96, 1500)
     prof = fsgen.profile(weights=dict(write=14, read=12, seek=10, open=8, close=4, flush=3, query=4, io=4, delete=2, mkdir=1, bad=2, remount=1))
@@ -85,6 +107,8 @@ def check_C02(run, replay=None):
     env = F.Env(run, "C02.v")
     if not env.ok:
         return "other"
+    if replay:
+        return do_replay(run, env, replay)
     rng = V.SplitMix(run.seed)
     n = tier_n(run, 80, 1200)
     prof = fsgen.profile(weights=dict(write=12, open=10, close=6, flush=4, delete=4, mkdir=4, read=2, seek=3, bad=1, remount=2), quiesce=True)
@@ -219,6 +243,8 @@ def check_C03(run, replay=None):
     env = F.Env(run, "C03.v")
     if not env.ok:
         return "other"
+    if replay:
+        return do_replay(run, env, replay)
     rng = V.SplitMix(run.seed)
     n = tier_n(run, 60, 900)
     prof = fsgen.profile(weights=dict(write=14, open=12, close=5, delete=6, mkdir=5, flush=3, read=1, seek=2, bad=3, remount=1))
@@ -241,6 +267,8 @@ def check_C04(run, replay=None):
     env = F.Env(run, "C04.v")
     if not env.ok:
         return "other"
+    if replay:
+        return do_replay(run, env, replay)
     rng = V.SplitMix(run.seed)
     n = tier_n(run, 60, 900)
     prof = fsgen.profile(weights=dict(write=16, open=12, close=5, delete=6, mkdir=5, flush=4, read=1, seek=2, bad=2))
@@ -272,6 +300,8 @@ def check_C05(run, replay=None):
     env = F.Env(run, "C05.v")
     if not env.ok:
         return "other"
+    if replay:
+        return do_replay(run, env, replay)
     rng = V.SplitMix(run.seed)
     n = tier_n(run, 48, 700)
     prof = fsgen.profile(weights=dict(write=14, open=12, close=8, delete=8, mkdir=4, flush=2, read=1, seek=2, bad=1, remount=0), quiesce=True)
@@ -338,6 +368,8 @@ def check_C06(run, replay=None):
     env = F.Env(run, "C06.v")
     if not env.ok:
         return "other"
+    if replay:
+        return do_replay(run, env, replay)
     rng = V.SplitMix(run.seed)
     n = tier_n(run, 64, 900)
     prof = fsgen.profile(weights=dict(iter=12, find=10, opendir=10, closedir=6, open=6, close=4, delete=6, mkdir=5, write=3, bad=3, read=0, seek=0, query=0, io=0))
@@ -438,6 +470,8 @@ def check_C07(run, replay=None):
     env = F.Env(run, "C07.v")
     if not env.ok:
         return "other"
+    if replay:
+        return do_replay(run, env, replay)
     rng = V.SplitMix(run.seed)
     n = tier_n(run, 48, 600)
     # the full matrix, enumerated, after generated prefix histories
@@ -521,6 +555,8 @@ def c07_oracle(sc):
                     exp = {"TooManyOpenFiles"}
                 elif s11 is None:
                     exp = {"FilenameError"}
+                elif s11[:2] in (b". ", b".."):
+                    exp = {"OpenedDirAsFile"}
                 elif hit is None:
                     exp = {"ok-create"} if md in ("RWC", "RWCT", "RWCA") else {"NotFound"}
                 elif already:
@@ -564,6 +600,7 @@ def c07_oracle(sc):
                     out.append("op %d: refused delete(%r) -> %s wrote to the medium" % (k, nm, e))
             elif op[0] == "mkdir":
                 if s11 is None: exp = {"FilenameError"}
+                elif s11[:2] in (b". ", b".."): exp = {"DirAlreadyExists"}
                 elif hit is not None: exp = {"DirAlreadyExists"} if hit.attr & 0x10 else {"FileAlreadyExists"}
                 else: exp = {"ok", "NotEnoughSpace", "TooManyOpenDirs"}
                 got = "ok" if okk else e
@@ -588,6 +625,8 @@ def check_C08(run, replay=None):
     env = F.Env(run, "C08.v")
     if not env.ok:
         return "other"
+    if replay:
+        return do_replay(run, env, replay)
     rng = V.SplitMix(run.seed)
     n = tier_n(run, 96, 1500)
     prof = fsgen.profile(weights=dict(openvol=4, closevol=3, openroot=8, opendir=6, closedir=6, open=10, close=7, bad=14, hasopen=5, write=2, read=2,
@@ -729,6 +768,8 @@ def check_C09(run, replay=None):
     env = F.Env(run, "C09.v")
     if not env.ok:
         return "other"
+    if replay:
+        return do_replay(run, env, replay)
     rng = V.SplitMix(run.seed)
     n = tier_n(run, 40, 500)
     prof = fsgen.profile(weights=dict(write=12, open=12, close=8, flush=6, delete=5, mkdir=5, read=1, seek=2, bad=1, closevol=1, remount=0, io=0),
@@ -791,6 +832,8 @@ def check_C10(run, replay=None):
     env = F.Env(run, "C10.v")
     if not env.ok:
         return "other"
+    if replay:
+        return do_replay(run, env, replay)
     rng = V.SplitMix(run.seed)
     n = tier_n(run, 40, 500)
     prof = fsgen.profile(weights=dict(write=10, open=14, close=6, flush=4, delete=5, mkdir=8, read=0, seek=1, bad=1, closevol=1, remount=0, io=0, iter=0, find=0, query=0),
@@ -838,6 +881,8 @@ def check_C11(run, replay=None):
     env = F.Env(run, "C11.v")
     if not env.ok:
         return "other"
+    if replay:
+        return do_replay(run, env, replay)
     rng = V.SplitMix(run.seed)
     n = tier_n(run, 24, 200)
     prof = fsgen.profile(weights=dict(write=8, open=10, close=5, flush=3, delete=4, mkdir=4, read=6, seek=2, iter=6, find=5, opendir=4, label=1, bad=0, remount=0, io=0, closevol=1))
@@ -891,6 +936,8 @@ def check_C16(run, replay=None):
     env = F.Env(run, "C16.v")
     if not env.ok:
         return "other"
+    if replay:
+        return do_replay(run, env, replay)
     rng = V.SplitMix(run.seed)
     n = tier_n(run, 60, 800)
     prof = fsgen.profile(weights=dict(write=14, open=12, close=7, flush=5, delete=7, mkdir=4, read=1, seek=2, bad=1, closevol=3, openvol=2, remount=1, io=0))
